@@ -137,3 +137,32 @@ def pick(t, atom):
     while isinstance(t, tuple) and t and t[0] == "phi":
         t = t[2] if truth(t[1]) else t[3]
     return t
+
+
+def resolve_all(t, atom):
+    """t with every join (at any depth: whole value, argument, receiver) decided whose test `atom` can decide; atom(test) -> True / False / None (unknown);
+    and / or / not are taken apart here.  The result is renormalised.  Used to read off "what does the function return for THIS kind of input"."""
+    from .terms import renorm
+
+    def truth(c):
+        if isinstance(c, tuple) and c and c[0] == "bool":
+            vs = [truth(x) for x in c[2]]
+            if c[1] == "and":
+                return False if any(v is False for v in vs) else (None if any(v is None for v in vs) else True)
+            return True if any(v is True for v in vs) else (None if any(v is None for v in vs) else False)
+        if isinstance(c, tuple) and c and c[0] == "un" and c[1] == "not":
+            v = truth(c[2])
+            return None if v is None else not v
+        return atom(c)
+
+    def go(x):
+        if not isinstance(x, tuple):
+            return x
+        if x and x[0] == "phi" and len(x) == 4:
+            v = truth(x[1])
+            if v is True:
+                return go(x[2])
+            if v is False:
+                return go(x[3])
+        return tuple(go(y) for y in x)
+    return renorm(go(t))
